@@ -13,6 +13,7 @@ from .. import norm
 SESS = 'tcpcl/session.py'
 START = 'flags & messages.TransferSegment.Flag.START'
 END = 'flags & messages.TransferSegment.Flag.END'
+START = 'flags & messages.TransferSegment.Flag.START'
 
 
 def check(chk, thorough=False):
@@ -23,6 +24,7 @@ def check(chk, thorough=False):
     chk.run('C01.d', 'R-ORDER+R-GUARD', 'receiver: setup only on START, mismatch rejected before any write, delivery only under END and of the written item', lambda ob: c01d(tree, ob), floor=7)
     chk.run('C01.e', 'R-GUARD+R-WHO', "'success' is signalled for a sent bundle only in the ACK handler under END", lambda ob: c01e(tree, ob), floor=1)
     chk.run('C01.f', 'R-ORDER', 'every path from send_bundle_started to a return sends a segment or re-arms the queue', lambda ob: c01f(tree, ob), floor=1)
+    chk.run('C01.i', 'R-GUARD', 'back-pressure is not taken for a dead connection: a send that would block keeps the octets and the connection', lambda ob: c01i(tree, ob), floor=2)
     chk.run('C01.g', 'R-WHO', 'the active-transfer state of each direction is written only by its own setup / teardown / pump functions', lambda ob: c01g(tree, ob), floor=6)
     chk.run('C01.h', 'R-SCHEMA', 'segment data and extension lengths are verified against what was read, also when empty (= C07.c)', lambda ob: _c07c(tree, ob), floor=6)
 
@@ -49,6 +51,9 @@ def c01g(tree, ob):
         for (func, stmt, kind, val) in stores:
             if func.name in allowed:
                 ob.site(SESS, stmt, '{} written in {}'.format(attr, func.name))
+            elif func.name == 'close' and isinstance(val, ast.Constant) and val.value is None:
+                # the end of the connection is the end of both directions: clearing (never setting) the state there is teardown
+                ob.site(SESS, stmt, '{} cleared in close()'.format(attr))
             else:
                 ob.violate(SESS, 'ContactHandler.' + func.name, src(stmt), '{} state ({}) is written from {}, which belongs to the other direction / another phase: '
                            'an unrelated event can wreck the transfer in progress'.format('TX' if attr.startswith('_tx') else 'RX', attr, func.name), stmt)
@@ -138,6 +143,9 @@ def c01b(tree, ob):
                 if isinstance(val, ast.Constant) and val.value == b'':
                     if func.name == '__init__':
                         ob.site(SESS, stmt, 'init ' + label)
+                    elif FuncView(tree, SESS, qual).has(stmt, 'self.get_app_socket() is None', True):
+                        # the connection was closed (by the handler just run): what else was read is void
+                        ob.site(SESS, stmt, 'reset of {} only once the connection is closed'.format(label))
                     else:
                         ob.violate(SESS, qual, src(stmt), 'buffer reset outside initialisation discards queued octets', stmt)
                     continue
@@ -442,7 +450,8 @@ def c01d(tree, ob):
     app = one(appends, '_rx_bundles.append', ob)
     maps = [n for n in walk_local(func) if isinstance(n, ast.Assign) and pm('self._rx_map[$k]', n.targets[0]) is not None]
     mp = one(maps, '_rx_map store', ob)
-    fins = method_calls(func, 'recv_bundle_finished', 'self')
+    # (the emit that reports an abandoned reception - result other than 'success' - is not a delivery)
+    fins = [f for f in method_calls(func, 'recv_bundle_finished', 'self') if not (len(f.args) > 2 and const_str(f.args[2]) not in (None, 'success'))]
     fin = one(fins, 'recv_bundle_finished emit', ob)
     for site in acks + [app, mp, fin]:
         ok, wit = fv.dominates(write, site)
@@ -455,11 +464,11 @@ def c01d(tree, ob):
             ob.site(SESS, site, 'delivery under END')
     # the delivered item is the one written
     item = app.args[0]
-    item_val = norm.inline(func, item)
+    item_val = fv.value_at(item, app, keep=('transfer_id',))
     if src(item_val) != 'self._rx_tmp':
         ob.violate(SESS, fv.qual, src(app), 'queued item is not the active RX item', app)
     mkey = pm('self._rx_map[$k]', mp.targets[0])['k']
-    if src(norm.inline(func, mp.value)) != 'self._rx_tmp' or src(norm.inline(func, mkey)) not in ('self._rx_tmp.transfer_id', 'transfer_id'):
+    if src(fv.value_at(mp.value, mp, keep=('transfer_id',))) != 'self._rx_tmp' or src(fv.value_at(mkey, mp, keep=('transfer_id',))) not in ('self._rx_tmp.transfer_id', 'transfer_id'):
         ob.violate(SESS, fv.qual, src(mp), 'RX map entry is not (id of the active item -> the active item)', mp)
     if const_str(fin.args[2]) != 'success' if len(fin.args) > 2 else True:
         ob.violate(SESS, fv.qual, src(fin), 'completed transfer not announced as success', fin)
@@ -469,8 +478,16 @@ def c01d(tree, ob):
     ok, wit = fv.cfg.must_pass(fv.node(fin), fv.cfg.exit, {fv.node(t) for t in tds}, include_exc=False)
     if not ok:
         ob.violate(SESS, fv.qual, src(fin), 'delivery is not followed by clearing the active RX item on every normal path', fin, path_text(wit))
+    setups = {fv.node(c) for c in method_calls(func, '_rx_setup', 'self')}
     for t in tds:
         if not fv.has(t, END, True):
+            # the one other legitimate clearing: a START replaces a reception the sender gave up - reported as not
+            # successful, and a fresh setup follows on every path
+            emits = {fv.node(f) for f in method_calls(func, 'recv_bundle_finished', 'self') if len(f.args) > 2 and const_str(f.args[2]) not in (None, 'success')}
+            if fv.has(t, START, True) and setups and fv.cfg.must_pass(fv.node(t), fv.cfg.exit, setups, include_exc=False)[0] and emits and \
+                    fv.cfg.must_pass(fv.node(t), fv.cfg.exit, emits, include_exc=False)[0]:
+                ob.site(SESS, t, 'abandoned reception cleared under START, reported as not successful, fresh setup follows')
+                continue
             ob.violate(SESS, fv.qual, src(t), 'active RX item cleared without END', t)
         elif fv.node(app) in fv.cfg.reachable([fv.node(t)]):
             ob.violate(SESS, fv.qual, src(t), 'active RX item cleared before it was queued', t)
@@ -524,3 +541,41 @@ def c01f(tree, ob):
         ob.violate(SESS, fv.qual, 'started; {}; return without sending'.format(cond.text() if cond else '?'),
                    'a transfer announced as started can return without any segment being sent or the queue being re-armed '
                    '(zero-length bundle: nothing is ever sent, no ACK ever comes, the queue behind it is blocked)', start, path_text(wit))
+
+
+def c01i(tree, ob):
+    ''' _tx_proxy runs from an io watch and from an idle callback, i.e. also when the non-blocking socket is not
+    writable: sock.send then raises BlockingIOError (ssl: SSLWantWriteError), both subclasses of OSError = socket.error.
+    The handler that treats a send error as "connection closed" must not be the one that catches them. '''
+    from ..cfg import handler_names
+    fv = FuncView(tree, SESS, 'Connection._tx_proxy')
+    sends = [c for c in calls_in(fv.func) if isinstance(c.func, ast.Attribute) and c.func.attr == 'send' and dotted(c.func.value) == 'sock']
+    snd = one(sends, 'sock.send in _tx_proxy', ob)
+    tr = enclosing(snd, (ast.Try,))
+    ob.require(tr is not None, 'sock.send outside a try')
+    wb = ('BlockingIOError', 'ssl.SSLWantWriteError', 'SSLWantWriteError')
+    seen_wouldblock = None
+    for h in tr.handlers:
+        names = [n or 'BaseException' for n in handler_names(h)]
+        if any(n in wb for n in names):
+            seen_wouldblock = h
+            break
+        if any(n.split('.')[-1] in ('error', 'OSError', 'IOError', 'Exception', 'BaseException', 'EnvironmentError') for n in names):
+            ob.violate(SESS, fv.qual, 'except {}: (catches BlockingIOError)'.format(' / '.join(names)), 'a send on a full socket buffer (EAGAIN) is handled as a closed connection: the sender closes its own '
+                       'socket in the middle of any bundle larger than the kernel buffer', h)
+            return
+    if seen_wouldblock is None:
+        ob.violate(SESS, fv.qual, 'sock.send(data) without a would-block handler', 'BlockingIOError escapes the event-loop callback', tr)
+        return
+    # the would-block arm keeps everything: no close, no write to the buffer
+    bad = [n for n in walk_local(seen_wouldblock) if (isinstance(n, ast.Call) and isinstance(n.func, ast.Attribute) and n.func.attr == 'close') or
+           (isinstance(n, (ast.Assign, ast.AugAssign)) and '__tx_buf' in src(n))]
+    rets = [r for r in walk_local(seen_wouldblock) if isinstance(r, ast.Return)]
+    if bad:
+        ob.violate(SESS, fv.qual, src(bad[0])[:60], 'the would-block arm closes or drops octets', bad[0])
+    elif not rets or not all(isinstance(r.value, ast.Constant) and r.value.value is True for r in rets):
+        ob.violate(SESS, fv.qual, 'would-block arm', 'the would-block arm does not ask to be called again (return True)', seen_wouldblock)
+    else:
+        ob.site(SESS, seen_wouldblock, 'would-block: octets kept, callback stays armed')
+        ob.site(SESS, snd, 'send errors other than would-block close the connection')
+
